@@ -208,3 +208,21 @@ PROPS["C07"] = dict(
     min_labels=dict(quick=dict(null_gap=20000, refused=20000, realloc=20000, overwrite=15000, sort=10000, bsearch=3000, del_range=4000, huge_index=8000, zero_capacity=10000)),
     assumptions=["elements are int nodes or null; the comparator orders by value with nulls first"],
 )
+
+PROPS["C17"] = dict(
+    harness="C17_visit.cpp", level="exploration",
+    technique="property testing over (tree, return-code schedule) against a reference traversal written from json_visit.h; the full call log (node identity, flags, parent, key/index) and the result are compared; per-tree enumeration of every single deviation",
+    level_text="generated trees (nulls, empty containers, nesting to 12) are visited with a callback that returns a generated code at generated call numbers "
+               "(CONTINUE/SKIP/POP/STOP/ERROR and invalid codes, biased to the root, the last calls and the flagged second visits); the sequence of calls "
+               "with node identity, flags, parent and key or index, and the final result must equal the reference traversal; mode 'single' enumerates, "
+               "for each generated tree, every single-deviation schedule over 6 codes at every call number < 40",
+    level_note="the rule that SKIP on a container also suppresses its flagged second call is not spelled out in json_visit.h; it is taken from tests/test_visit.expected, which pins it",
+    rule="(tree, schedule); non-trivial = a non-CONTINUE code was actually returned to the visitor; distinct by hash of (tree, schedule)",
+    quick=[dict(mode="gen", cases=120000, workers=8),
+           dict(mode="single", cases=3000, workers=8)],
+    thorough=[dict(mode="gen", cases=10000000, workers=16),
+              dict(mode="single", cases=300000, workers=16),
+              dict(mode="gen", fuzz=True, secs=240, jobs=8, max_len=1024)],
+    min_labels=dict(quick=dict(deviation_reached=60000, SKIP=20000, POP=20000, STOP=10000, ERROR=10000, INVALID=10000)),
+    assumptions=["member order of the built tree is insertion order (C06)"],
+)
